@@ -16,3 +16,4 @@ open Emboss.Deps
 #print axioms C15_import_edges
 #print axioms C15_self_import
 #print axioms C15_output_order_independent
+#print axioms C15_tarjan_sccs_literal
